@@ -369,6 +369,8 @@ def fn_text(fn, indent="", in_impl=False):
         lines.append("let __big = sim::big_buf(&__f);")
     if fn.is_async:
         lines.append("sim::pause(&__f).await;")
+    else:
+        lines.append("sim::sync_point(&__f);")
     children = []
     for ci, callee_name in enumerate(fn.calls):
         callee = ALL_FNS[callee_name]
@@ -383,6 +385,8 @@ def fn_text(fn, indent="", in_impl=False):
         children.append(f"__c{ci}")
         if fn.is_async:
             lines.append("sim::pause(&__f).await;")
+        else:
+            lines.append("sim::sync_point(&__f);")
     ch = ", ".join(children)
     if fn.big:
         lines.append("std::hint::black_box(&__big);")
@@ -706,6 +710,8 @@ def self_impl_fn_text(fn, id_expr):
     lines = [f"let __f = sim::enter({id_expr}, sim::addr(self), &[{', '.join(fps)}]);", "sim::user_alloc(&__f);"]
     if fn.is_async:
         lines.append("sim::pause(&__f).await;")
+    else:
+        lines.append("sim::sync_point(&__f);")
     lines += ret_tail(fn, "")
     body = "\n".join("        " + l for l in lines)
     return f"{attrs}    {asy}fn {fn.name}{g}({', '.join(params)}){ret} {{\n{body}\n    }}\n"
